@@ -2,7 +2,8 @@
 
 (M)    MemIndex.tla: add / clear / search_tiered / _iter_shards_for_t2 / sharded search over a small table of
        episode variants (duplicate ids, two owners, two named clusters + cluster-less, episodes without a
-       vector, the zero vector) in exact integer geometry; the clauses as invariants / action properties.
+       vector, the zero vector) in exact integer geometry; every clause is an action property (TLC evaluates those on every
+       transition; the observation is hidden by the VIEW, so reads are self-loops of the abstract state).
 (S->C)  every transition (pre state, call, observation, post state) is replayed on a real InMemoryIndex rebuilt
        to the pre state: stored episodes in order, index_version / cache_token deltas, the hits (which physical
        episode, in which order, with which score), the shard views (membership by object identity), the
@@ -588,7 +589,7 @@ def check(run) -> None:
     else:
         plan = [("A", dict(Q, queries=[(1, 1), (1, 0), (-1, 2)], owners=[0, 1, 2], thrs=[(0, 0), (1, 2), (-1, 2)], qs=[0, 1, 2]), True),
                 ("B", dict(Q, queries=[(1, 1), (0, 0), (-1, 2)], ks=[1, 3], thrs=[(0, 0), (-1, 2)], rds=[-1, 1], ms=[-1, 0, 1], qs=[0, 3, 4]), True),
-                ("C", dict(Q, owners=[0, 1], ks=[2, 3], rds=[-1, 1], qs=[0], maxn=4, maxlen=4), True)]
+                ("C", dict(Q, queries=[(1, 1)], owners=[0, 1], ks=[2, 3], rds=[-1, 1], qs=[0], maxn=4, maxlen=4), False)]
         for i in range(2):
             TABLES[f"R{i}"] = random_table(run.seed, i, [(1, 1), (1, 0), (0, 0), (-1, 2)])
             plan.append((f"R{i}", Q, False))
